@@ -55,7 +55,15 @@ concrete failing input; "(no-failing-input-found)" = the correspondence broke
 but the oracle accepted everything the run produced. {stats['n']} changes:
 {stats['own']} caught by the check of the property they were written against,
 {stats['other']} caught only by the check of a neighbouring property (named in
-the table). The last column records the changes that the first version of a
+the table), {stats['n'] - stats['own'] - stats['other']} not caught (C16-r6-m1: it only shows for a 3x4 matrix passed
+directly to an internal helper, outside the property; see its history entry).
+Two changes are caught in the thorough tier only (C02-r6-m3, C05-r6-m2: they
+need 300 MB of data; `"tier_needed": "thorough"` in their meta.json), three
+candidates were rejected because they break unit tests, and rates of first-shot
+detection per round (before any strengthening) were roughly 70 % (rounds 1-3),
+58 % (round 4, state across calls), 68 % (round 5, breadth) and 25 % (round 6,
+written to evade a sampling checker): the strengthened generators are what
+`seeded/HISTORY.json` lists. The last column records the changes that the first version of a
 check missed and what was strengthened (`seeded/HISTORY.json`); the table shows
 the state after the strengthening, and on the unchanged tree the strengthened
 checks stay quiet.
